@@ -31,6 +31,7 @@ const char *hx_sym(uintptr_t pc);
 extern int hx_san_last_was_write;                     /* set by hx_emit_san_events: memory may be corrupted */
 int hx_emit_san_events(const char *what);
 int hx_leak_check(const char *what);
+void hx_emit_tsan_races(const char *what);            /* tsan variant: race reports since san_reset() -> violations; no-op elsewhere */
 void hx_set_context(const char *what);                /* description of the running case, used if a fatal signal ends the child */                  /* LSan recoverable check (asan variant only); emits violations */             /* sanitizer reports since the last call -> violations; returns count */
 
 extern volatile _Bool bidib_running, bidib_discard_rx, bidib_seq_num_enabled, bidib_lowlevel_debug_mode;
